@@ -4,7 +4,7 @@ def gorwp_nontrivial(cmd, inp, impl, prev):
 
 TB = "Trusted: Lean kernel (axioms propext, Classical.choice, Quot.sound only, audited per theorem), the harness (scripted loopback panel, handler log, reflection read of the unexported state fields under the state's lock) and the Lean driver runtime. "
 
-PROP = dict(
+PROP = dict(race_binary=True, 
     family="c19", session_start=None, trivial=gorwp_nontrivial, level="proof",
     n=dict(quick=40, thorough=600),
     exhaustive=dict(quick=False, thorough=False),
